@@ -154,7 +154,17 @@ var efName = [...]string{"wal_append", "wal_flush", "wal_prune", "bcast_proposal
 type verdict struct {
 	dead   bool // the process is dead: do nothing, fail
 	during bool // wal_flush only: perform the flush, but the process dies inside it
+	fail   bool // commit only: the listener reports failure (OnCommit returns false)
 }
+
+// ways in which a validator process stops
+const (
+	stopKill            = iota // the process image is gone at once
+	stopGracefulCancel         // the driver's context is cancelled (graceful shutdown): Run returns, its deferred Close runs
+	stopListenerFailure        // commit effects only: OnCommit returns false, Run returns the error, its deferred Close runs
+)
+
+var stopName = [...]string{"kill", "graceful_cancel", "listener_failure"}
 
 type req struct {
 	kind    int
@@ -187,6 +197,10 @@ type incarnation struct {
 	propCh chan *types.Proposal[V, H, A]
 	pvCh   chan *types.Prevote[H, A]
 	pcCh   chan *types.Precommit[H, A]
+
+	cancelled bool  // the harness cancelled ctx as a stop request (graceful shutdown); harness goroutine only
+	closed    bool  // the driver itself closed the store (Run returned in a live process)
+	closeErr  error // what that Close returned
 
 	mu     gosync.Mutex
 	dead   bool
@@ -277,9 +291,18 @@ func (s *seamStore) LoadAllEntries() iter.Seq2[wal.Entry[V, H, A], error] {
 	}
 }
 
-// Close: the driver closes the store when Run returns. A dead process closes nothing; a live one is
-// closed by the harness itself (quietly) when the run ends.
-func (s *seamStore) Close() error { return nil }
+// Close: the driver closes the store when Run returns. A dead process (killed, or ended by the harness) closes
+// nothing - the harness closes its store quietly after the crash image has been taken. A process that is alive
+// when Run returns (graceful shutdown, listener failure) closes the real store: what that makes durable is on
+// the disk the validator restarts from.
+func (s *seamStore) Close() error {
+	if s.inc.isDead() {
+		return nil
+	}
+	s.inc.closed = true
+	s.inc.closeErr = s.inc.real.Close()
+	return s.inc.closeErr
+}
 
 type bcast[M any] struct {
 	inc  *incarnation
@@ -297,7 +320,7 @@ type commitSim struct{ inc *incarnation }
 func (c *commitSim) OnCommit(_ context.Context, h types.Height, v V) bool {
 	vv := v
 	verdict := c.inc.park(&req{kind: efCommit, desc: fmt.Sprintf("commit(h%d v=%s)", h, valStr(&vv)), h: h, id: valStr(&vv), value: &vv})
-	return !verdict.dead
+	return !verdict.dead && !verdict.fail
 }
 func (c *commitSim) Listen() <-chan junosync.CommittedBlock { return nil }
 
@@ -372,6 +395,7 @@ type arm struct {
 	count  int
 	after  bool // die after the effect happened (before the driver does anything else)
 	during bool // flush only: die inside the flush
+	how    int  // stopKill / stopGracefulCancel / stopListenerFailure (the latter at a commit effect, else a kill)
 }
 
 type node struct {
@@ -391,6 +415,10 @@ type node struct {
 	// faults
 	arm        *arm
 	killNext   bool
+	killHow    int                       // how the process stops when killNext is set
+	stopping   string                    // name of the stop kind while windDown is at work
+	expectLog  map[types.Height][]string // after a stop in which Run returned: what the log must hold at the restart
+	expectWhy  string
 	downSince  int  // scheduler step of the crash
 	downFor    int  // restart after this many scheduler steps
 	inboxLost  bool // messages addressed to the node while it is down are lost (else: queued)
@@ -410,7 +438,14 @@ type node struct {
 
 func (nd *node) up() bool { return nd.inc != nil }
 
-func (nd *node) where() string { return appName[nd.w.appMode] + "/net" }
+// where: first part of the violation keys; while the validator is stopping in one of the ways in which Run
+// returns by itself, the stop kind is part of it.
+func (nd *node) where() string {
+	if nd.stopping != "" {
+		return appName[nd.w.appMode] + "/net/" + nd.stopping
+	}
+	return appName[nd.w.appMode] + "/net"
+}
 
 func (nd *node) timeoutFn(inc *incarnation) driver.TimeoutFn {
 	return func(step types.Step, round types.Round) time.Duration {
@@ -464,6 +499,26 @@ func (nd *node) start() {
 		}
 	}
 	inc.nLoaded = len(ents)
+	if nd.expectLog != nil {
+		// the last process stopped with Run returning by itself (its deferred Close of the store ran; Close flushes
+		// what is buffered): the log holds everything the validator had appended for the heights whose commit did
+		// not complete - in particular the entries of a height whose commit callback failed or was cancelled
+		hs := make([]types.Height, 0, len(nd.expectLog))
+		for h := range nd.expectLog {
+			if h > nd.dur.last {
+				hs = append(hs, h)
+			}
+		}
+		sort.Slice(hs, func(i, j int) bool { return hs[i] < hs[j] })
+		for _, h := range hs {
+			if strings.Join(inc.walWant[h], "|") != strings.Join(nd.expectLog[h], "|") {
+				_ = real.Close()
+				c.Fail(nd.classOf("stop_lost_log", false), nd.where()+"/"+nd.expectWhy, "Driver.Run of n%d had returned in a live process (%s), but the log the validator restarts from does not hold what it had appended for height %d (last completed commit %d)\nin the log: %v\nappended:   %v\nlast effects of n%d: %s",
+					nd.idx, nd.expectWhy, h, nd.dur.last, inc.walWant[h], nd.expectLog[h], nd.idx, strings.Join(tail(w.effLog[nd.idx], 24), " ; "))
+			}
+		}
+		nd.expectLog = nil
+	}
 	sm := tendermint.New[V, H, A](log.NewNopZapLogger(), walworld.Addr(nd.idx), inc.app, w.vs, nd.dur.last+1)
 	nd.inc = inc
 	nd.got = map[*msg]bool{}
@@ -502,7 +557,7 @@ func (nd *node) start() {
 
 // endProcess ends the current process of the validator: as a crash (the caller has taken care of the disk
 // image) or as a quiet stop by the harness. r is the effect the process is parked at, if any.
-func (nd *node) endProcess(r *req, v verdict) {
+func (nd *node) endProcess(r *req, v verdict) (hung bool) {
 	inc := nd.inc
 	inc.setDead()
 	if r == nil {
@@ -521,21 +576,57 @@ func (nd *node) endProcess(r *req, v verdict) {
 	if v.during {
 		inc.cancel()
 	}
-	<-inc.done
-	synctest.Wait()
+	hung = nd.awaitExit(inc)
 	nd.w.dropTimers(inc)
+	return hung
 }
 
-// stop: quiet end (end of the run / validator reached the goal height). Not a crash of the model.
-func (nd *node) stop() {
+// awaitExit waits for Run of a process that is dead (every seam call fails) and whose context is cancelled.
+// hung: Run did not return although the driver is at no seam; the driver is then got out of the way by closing
+// its listener channel.
+func (nd *node) awaitExit(inc *incarnation) (hung bool) {
+	closedCh := false
+	for i := 0; ; i++ {
+		synctest.Wait()
+		select {
+		case <-inc.done:
+			synctest.Wait()
+			return hung
+		default:
+		}
+		if r := inc.takeParked(); r != nil {
+			r.release <- verdict{dead: true}
+			continue
+		}
+		if closedCh || i > 1000 {
+			nd.inc = nil
+			nd.w.c.Broken("a driver that ignores its stop request cannot be ended by closing its listener channel either")
+		}
+		hung = true
+		close(inc.propCh)
+		closedCh = true
+	}
+}
+
+// stop: quiet end (end of the run / validator reached the goal height). Not a crash of the model. hung: Run did
+// not return although its context was cancelled while the driver was idle.
+func (nd *node) stop() (hung bool) {
 	if nd.inc == nil {
-		return
+		return false
 	}
 	inc := nd.inc
-	nd.endProcess(nil, verdict{dead: true})
+	hung = nd.endProcess(nil, verdict{dead: true})
 	nd.disk.Quiet = true
 	_ = inc.real.Close()
 	nd.inc = nil
+	return hung
+}
+
+// stopJudged: stop on the normal path of a run. Run must return when its context is cancelled.
+func (nd *node) stopJudged(when string) {
+	if nd.stop() {
+		nd.w.c.Fail("stop_hang", nd.where()+"/"+when, "Driver.Run of n%d does not return although its context was cancelled while the driver was idle (%s)\nlast effects of n%d: %s", nd.idx, when, nd.idx, strings.Join(tail(nd.w.effLog[nd.idx], 12), " ; "))
+	}
 }
 
 // kill: the process dies now - before the effect r it is parked at (r == nil: while idle), or inside it
@@ -568,6 +659,14 @@ func (nd *node) kill(r *req, during bool, why string) {
 	} else {
 		nd.endProcess(r, verdict{dead: true})
 	}
+	nd.goDown(inc, img, "CRASH", why, at, role)
+}
+
+// goDown: the process of the validator is gone (killed, or Run returned). The disk keeps its synced data plus a
+// tape-chosen part of the unsynced data (img != nil: the image was taken inside a flush); the machine comes
+// back with it later.
+func (nd *node) goDown(inc *incarnation, img walworld.Image, what, why, at, role string) {
+	w, c, t := nd.w, nd.w.c, nd.w.c.T
 	if img == nil {
 		S, F := nd.disk.SyncedView(nd.walDir), nd.disk.FullView(nd.walDir)
 		switch t.Draw("image_variant", 3) {
@@ -584,7 +683,9 @@ func (nd *node) kill(r *req, during bool, why string) {
 	nd.inc = nil
 	nd.arm, nd.killNext = nil, false
 	nd.crashes++
-	c.Fault("net.crash")
+	if what == "CRASH" {
+		c.Fault("net.crash")
+	}
 	if nd.crashes == 2 {
 		c.Probe("net.same_node_crashed_twice")
 	}
@@ -607,7 +708,166 @@ func (nd *node) kill(r *req, during bool, why string) {
 	if down >= 2 {
 		c.Probe("net.two_nodes_down_at_once")
 	}
-	c.Logf("CRASH n%d %s at %s%s; image %s; restart after %d steps; inbox %s", nd.idx, why, at, role, img, nd.downFor, map[bool]string{true: "lost", false: "queued"}[nd.inboxLost])
+	c.Logf("%s n%d %s at %s%s; image %s; restart after %d steps; inbox %s", what, nd.idx, why, at, role, img, nd.downFor, map[bool]string{true: "lost", false: "queued"}[nd.inboxLost])
+}
+
+// windDown: the validator process stops without being killed - Driver.Run returns by itself and its deferred
+// Close of the store runs. The stop request meets the driver parked at effect r (nil: idle in its select):
+//   - graceful_cancel: the driver's context is cancelled. Seam calls that take the context return: a broadcast
+//     under a cancelled context is sent or not (the real broadcasters select between ctx.Done and their queue:
+//     tape), the commit callback returns false (whether the block was persisted all the same: tape). WAL calls
+//     take no context and are carried out;
+//   - listener_failure (r is a commit effect): the commit callback returns false.
+//
+// What the driver still does until Run returns is carried out and recorded as done (messages that were sent were
+// sent and pass the monitors like any other), but the stop itself is judged only for: Run returns, no panic.
+func (nd *node) windDown(r *req, how int, why string, logged bool) {
+	w, c, t := nd.w, nd.w.c, nd.w.c.T
+	inc := nd.inc
+	if how == stopListenerFailure && (r == nil || r.kind != efCommit) {
+		nd.kill(r, false, why)
+		return
+	}
+	at := "idle"
+	if r != nil {
+		at = efName[r.kind] + " " + r.desc
+	}
+	atKind := "idle"
+	if r != nil {
+		atKind = efName[r.kind]
+	}
+	role := ""
+	if w.vs.proposerIdx(nd.dur.last+1, 0) == nd.idx {
+		role = " (proposer of round 0 of its height)"
+	}
+	name := stopName[how]
+	nd.stopping = name
+	defer func() { nd.stopping = "" }()
+	c.Fault("net.stop." + name)
+	c.Probe("net.stop." + name + "_at_" + atKind)
+	if how == stopGracefulCancel {
+		inc.cancelled = true
+		inc.cancel()
+	}
+	nd.inhand = nil
+	failed := map[types.Height]bool{}
+	first := true
+	for steps := 0; ; steps++ {
+		if r == nil {
+			synctest.Wait()
+			exited := false
+			select {
+			case err := <-inc.done:
+				inc.done <- err
+				exited = true
+			default:
+			}
+			if exited {
+				break
+			}
+			if r = inc.takeParked(); r == nil {
+				inc.setDead()
+				nd.awaitExit(inc)
+				w.dropTimers(inc)
+				nd.disk.Quiet = true
+				_ = inc.real.Close()
+				nd.inc = nil
+				c.Fail("stop_hang", nd.where()+"/"+atKind, "Driver.Run of n%d does not return after the stop request (%s, the driver was at: %s): the driver is blocked outside every seam\nlast effects of n%d: %s",
+					nd.idx, name, at, nd.idx, strings.Join(tail(w.effLog[nd.idx], 16), " ; "))
+			}
+			logged = false
+		}
+		nd.inhand = r // should a monitor end the run now, the clean-up finds the effect the driver is parked at
+		if !logged {
+			inc.nEffects++
+			line := efName[r.kind] + " " + r.desc + " (stopping)"
+			w.noteEffect(nd, line)
+			c.Logf("n%d %s", nd.idx, line)
+			if r.kind == efCommit {
+				nd.onDecision(r)
+			}
+			logged = true
+		}
+		if steps > 400 {
+			c.Broken("a driver does not come to an end after its stop request")
+		}
+		v := verdict{}
+		switch r.kind {
+		case efAppend, efPrune, efFlush:
+			nd.released(r)
+		case efBcastProposal, efBcastPrevote, efBcastPrecommit:
+			sent := true
+			if inc.cancelled {
+				sent = t.Draw("cancelled_broadcast_sent", 2) == 1
+			}
+			if sent {
+				nd.beforeVisible(r)
+				nd.released(r)
+				if inc.cancelled {
+					c.Probe("net.cancelled_broadcast_sent")
+				}
+			}
+		case efCommit:
+			switch {
+			case first && how == stopListenerFailure:
+				v.fail = true
+				failed[r.h] = true
+			case inc.cancelled:
+				v.fail = true
+				if t.Draw("cancelled_commit_persisted", 2) == 1 {
+					// the block had been handed over and was persisted although the listener gave up waiting
+					nd.released(r)
+					c.Probe("net.cancelled_commit_persisted")
+				} else {
+					failed[r.h] = true
+				}
+			default:
+				nd.released(r)
+			}
+		}
+		nd.inhand = nil
+		r.release <- v
+		r, first, logged = nil, false, false
+	}
+	err := <-inc.done
+	synctest.Wait()
+	w.dropTimers(inc)
+	inc.mu.Lock()
+	pv, st := inc.panicV, inc.stack
+	inc.mu.Unlock()
+	if pv != nil {
+		nd.disk.Quiet = true
+		_ = inc.real.Close()
+		nd.inc = nil
+		fn, inRepo := panicSite(st)
+		if !inRepo {
+			c.Broken("panic in a driver goroutine outside juno's code: %v\n%s", pv, st)
+		}
+		c.Fail("panic", fn, "driver of n%d panicked while stopping (%s): %v\n%s", nd.idx, name, pv, st)
+	}
+	if len(failed) > 0 {
+		c.Probe("net.stop_with_incomplete_commit")
+	}
+	if !inc.closed {
+		c.Probe("net.run_returned_without_close")
+	}
+	// the log the validator restarts from holds what it had appended for the undecided heights (checked at the restart)
+	// (only the heights whose commit callback failed or was cancelled: everything logged for them was durable
+	// before the commit was attempted and must not have been pruned; entries that were merely buffered when
+	// the process stopped are outside the statement)
+	nd.expectLog = map[types.Height][]string{}
+	nd.expectWhy = name
+	for h := range failed {
+		if h > nd.dur.last {
+			nd.expectLog[h] = append([]string(nil), inc.walWant[h]...)
+			nd.expectWhy = name + "/uncommitted_height"
+		}
+	}
+	if len(nd.expectLog) == 0 {
+		nd.expectLog = nil
+	}
+	_ = err
+	nd.goDown(inc, nil, "STOP ("+name+")", why, at, role)
 }
 
 func (nd *node) mountPoint() string { return fmt.Sprintf("/jsim/n%d", nd.idx) }
